@@ -146,7 +146,8 @@ def run(ctx, scratch):
                 for rep in range(reps if pi == 0 else max(1, reps // 2)):
                     fam = rng.choice(DEGENERATE)
                     kind = cases.pick_kind(rng, d)
-                    spec, nr, nc = degenerate_matrix(rng, fam, kind, nmax)
+                    # get_cycles lists every simple cycle: its output (hence its running time) is exponential in dense graphs
+                    spec, nr, nc = degenerate_matrix(rng, fam, kind, 8 if name == 'get_cycles' else nmax)
                     opts = cases.make_opts(rng, d, nr, nc, kind == 'bip')
                     if name == 'GNNClassifier':
                         opts = cases.gnn_opts(rng, nr)
